@@ -9,6 +9,40 @@ import (
 // is "{}". Unserializing any input that leaves such a property out would recurse until the stack is exhausted,
 // which ends the process and cannot be recovered from, so the schema is refused when it is linked instead.
 func (o *ObjectSchema) checkDefaultExpansion() {
+	o.checkOwnDefaultExpansion()
+	// Objects that are used directly as a type (not through a reference) are not listed in any scope: they are
+	// checked together with the object that contains them.
+	for _, property := range o.PropertiesValue {
+		if property != nil {
+			checkInlineObjectsDefaultExpansion(property.TypeValue)
+		}
+	}
+}
+
+// checkInlineObjectsDefaultExpansion runs the check on every object reachable from t without following a
+// reference or entering a scope (those are checked where they are defined).
+func checkInlineObjectsDefaultExpansion(t Type) {
+	switch typed := t.(type) {
+	case *ObjectSchema:
+		if typed != nil {
+			typed.checkDefaultExpansion()
+		}
+	case UntypedList:
+		checkInlineObjectsDefaultExpansion(typed.Items())
+	case UntypedMap:
+		checkInlineObjectsDefaultExpansion(typed.Values())
+	case *OneOfSchema[string]:
+		for _, member := range typed.TypesValue {
+			checkInlineObjectsDefaultExpansion(member)
+		}
+	case *OneOfSchema[int64]:
+		for _, member := range typed.TypesValue {
+			checkInlineObjectsDefaultExpansion(member)
+		}
+	}
+}
+
+func (o *ObjectSchema) checkOwnDefaultExpansion() {
 	for propertyID, defaultValue := range o.GetDefaults() {
 		property, ok := o.PropertiesValue[propertyID]
 		if !ok || property == nil {
